@@ -246,6 +246,12 @@ CHECKS = {
 }
 
 NOT_APPLICABLE = {
+    'C20': 'not decided: the property needs a symbolic model of torch tensors and of torch.nn.MultiheadAttention / TransformerDecoderLayer '
+           '(~25 tensor operations, module parameter plumbing, a reference forward written from the PyTorch documentation) plus equalities of '
+           'softmax / LayerNorm terms over symbolic weights (nonlinear real arithmetic with uninterpreted exp and rsqrt); the torch shim built '
+           'here covers only cat / argmax / roll / slicing (C04), and the nonlinear queries met in C16 / C07 already failed to return in z3 at '
+           'far smaller sizes.  Not encodable within reach with the installed tooling and the time available; no other technique was substituted '
+           '(DESIGN.md 7.6).',
 }
 
 PENDING = 'check not built yet in this session (see DESIGN.md section 6 build order); no claim is made'
